@@ -2266,6 +2266,8 @@ class EvalExceptionFormatter:
         self.current_code_list: list[str] | None = None
         self.current_filename: str | None = None
         self.last_eval_frame: traceback.FrameSummary | None = None
+        # set when a function call is entered: its first frame is never merged into the caller's frame
+        self.new_call: bool = False
         self.lineno: int = 1
         self.col_offset: int = 0
         self.end_col_offset: int = 0
@@ -2313,6 +2315,7 @@ class EvalExceptionFormatter:
                         self.current_func = eval_func.get_name()
                         self.current_code_list = eval_func.code_list
                         self.current_filename = eval_func.global_ctx.get_file_path()
+                        self.new_call = True
                 elif code.co_qualname == AstEval.call_func.__qualname__ and self.current_func is None:
                     self.current_func = frame.f_locals.get("func_name", None)
                 elif code.co_qualname == AstEval.parse.__qualname__ and isinstance(self.exc, SyntaxError):
@@ -2370,11 +2373,17 @@ class EvalExceptionFormatter:
         )
 
         last_frame = self.stack[-1] if self.stack else None
-        if last_frame and new_frame.filename == last_frame.filename and new_frame.name == last_frame.name:
+        if (
+            last_frame
+            and not self.new_call
+            and new_frame.filename == last_frame.filename
+            and new_frame.name == last_frame.name
+        ):
             # Replace with more detailed (deeper) data
             self.stack[-1] = new_frame
         else:
             self.stack.append(new_frame)
+        self.new_call = False
         self.last_eval_frame = new_frame
 
     def real_frame(self, tb: TracebackType) -> None:
